@@ -135,7 +135,13 @@ def prop_shapes_q():
           ("And", ("Equals", y, one), ("exists", qx, ("forall", qy, ("BVULE", x, y))), ("BVULT", y, x)),
           ("And", ("Equals", z, one), ("forall", qx, ("exists", qy, ("Equals", x, y)))),
           ("And", ("Equals", z, one), ("exists", qx, ("forall", qy, ("Or", ("Equals", x, y), ("Equals", y, z))))),
-          ("And", ("Equals", z, x), ("forall", qx, ("Or", ("Equals", z, one), ("exists", [("z", B2)], ("BVULT", x, z)))))]
+          ("And", ("Equals", z, x), ("forall", qx, ("Or", ("Equals", z, one), ("exists", [("z", B2)], ("BVULT", x, z))))),
+          # the representative of a class of equal variables is itself bound further down: replacing the others by it must not
+          # put it under its binder (both creation orders: the representative is the older symbol)
+          ("And", ("Equals", y, x), ("forall", qx, ("BVULE", x, y))),
+          ("And", ("forall", qx, ("BVULE", x, y)), ("Equals", x, y)),
+          ("And", ("Equals", x, y), ("exists", qy, ("BVULT", x, y)), ("forall", qx, ("BVULE", x, y))),
+          ("And", ("Equals", y, z), ("Equals", z, x), ("exists", qx, ("And", ("BVULT", x, z), ("forall", [("z", B2)], ("BVULE", y, z)))))]
     return [Shape(t) for t in sh]
 
 
